@@ -35,9 +35,10 @@ const (
 )
 
 type Field struct {
-	Name string
-	T    *Type
-	Tag  string
+	Name     string
+	T        *Type
+	Tag      string
+	Embedded bool // written as an embedded field; Name must be the type's name
 }
 
 type Type struct {
@@ -46,8 +47,8 @@ type Type struct {
 	Name    string
 	Elem    *Type
 	Fields  []*Field
-	PtrRecv bool    // KLeaf: methods have pointer receivers
-	Impls   []*Type // KLeaf: interfaces implemented
+	PtrRecv bool    // KLeaf/KAgg: methods have pointer receivers
+	Impls   []*Type // KLeaf/KAgg: interfaces implemented
 	Embeds  []*Type // KIface: embedded interfaces
 }
 
@@ -107,6 +108,8 @@ type Func struct {
 	Cleanup  bool
 	Err      bool
 	RawSig   string // if set, the whole "(params) results" text is taken verbatim and the body panics (C09)
+	Illegal  bool   // RawSig is a shape the documented rules forbid
+	Extra    string // extra statements at the start of the body (may use a0, a1, ... and vt.)
 }
 
 type Item struct {
